@@ -64,6 +64,8 @@ BuildEv(s0, in, s1) ==
                             [] b.k \in {"enable", "disable"} -> ClsHdrs(b.cl)
                             [] isCtl -> <<[g |-> 12, v |-> 1, q |-> IF b.ob = "a2" THEN 40 ELSE 23, a |-> 1, b |-> -1]>>
                             [] b.k = "write_rst" -> <<[g |-> 80, v |-> 1, q |-> 0, a |-> 7, b |-> 7]>>
+                            [] b.k = "wtabs" -> <<[g |-> 50, v |-> 1, q |-> 7, a |-> 1, b |-> -1]>>
+                            [] b.k = "wtlast" -> <<[g |-> 50, v |-> 3, q |-> 7, a |-> 1, b |-> -1]>>
                             [] b.k = "write2" ->
                                  LET h(i) == [g |-> 80, v |-> 1, q |-> 0, a |-> i, b |-> i]
                                  IN IF b.ob = "bg" THEN <<h(4), h(7)>> ELSE <<h(7), h(4)>>
@@ -72,6 +74,9 @@ BuildEv(s0, in, s1) ==
                              [] b.k = "write_rst" ->
                                   <<[g |-> 80, v |-> 1, ix |-> 7, ty |-> "", ev |-> FALSE, val |-> "0",
                                      fl |-> -1, tm |-> "", tq |-> "", st |-> -1]>>
+                             [] b.k \in {"wtabs", "wtlast"} ->
+                                  <<[g |-> 50, v |-> IF b.k = "wtabs" THEN 1 ELSE 3, ix |-> -1, ty |-> "", ev |-> FALSE,
+                                     val |-> "", fl |-> -1, tm |-> "5000", tq |-> "", st |-> -1]>>
                              [] b.k = "write2" ->
                                   LET o(i) == [g |-> 80, v |-> 1, ix |-> i, ty |-> "", ev |-> FALSE, val |-> "0",
                                                fl |-> -1, tm |-> "", tq |-> "", st |-> -1]
